@@ -273,6 +273,15 @@ def witness_probes(ctx):
         r = run_mgs(ctx, kw)
         ctx.count("probe_witness", "cases")
         check_mgs_answer(ctx, kw, 1, r, {"class": "MinGenSet", "args": describe(kw), "witness": "Props/C15.v C15_loop_old_upper_end_refuted (fixed finding; must be solved now)"})
+    # fixed corpus: mgs_pi_bounded_by_total (a068bcc): {1} generates 1 and 2 = 2*1; the old code returned [0.5, 0.5]
+    for wt in (float, int):
+        kw = dict(numbers=[wt(1), wt(2)], total=wt(1), weight_type=wt, max_multiplicity=2, lowerbound=1, remove_complement_values=True)
+        r = run_mgs(ctx, kw)
+        ctx.count("probe_witness", "cases")
+        check_mgs_answer(ctx, kw, 1, r, {"class": "MinGenSet", "args": describe(kw), "witness": "Props/C15.v C15_pi_bound_old_refuted (fixed finding mgs_pi_bounded_by_total)"})
+        if r["ok"] and len(r["m"].get_solution()) != 1:
+            ctx.report(f"MinGenSet([1,2], total 1, multiplicity 2) returns {r['m'].get_solution()} although {{1}} generates both numbers", {"class": "MinGenSet", "args": describe(kw)},
+                       key="mgs_pi_bounded_by_total")
     kw = dict(numbers=[2, 3, 2], total=5, weight_type=int, max_multiplicity=2, lowerbound=1, remove_complement_values=True)
     r = run_mgs(ctx, kw)
     ctx.count("probe_witness", "cases")
